@@ -86,10 +86,10 @@ def signature(func, variadic=True, markup=True, safe=False):
             p_kwds = func.keywords or {} # dict of default kwd values
             func = func.func
             identified = True
-            if hasattr(func, '__call__') and not hasattr(func, '__name__'):
+            if hasattr(func, '__call__') and not inspect.isroutine(func) and not inspect.isclass(func):
                 func = func.__call__ # treat callable instance as __call__
         except AttributeError:
-            if hasattr(func, '__call__') and not hasattr(func, '__name__'):
+            if hasattr(func, '__call__') and not inspect.isroutine(func) and not inspect.isclass(func):
                 func = func.__call__ # treat callable instance as __call__
             else: #XXX: anything else to try? No? Give up.
                 pass
@@ -202,10 +202,10 @@ def validate(func, *args, **kwds):
             func = func.func
             p_required = set(p_named) - set(p_defaults)
             identified = True
-            if hasattr(func, '__call__') and not hasattr(func, '__name__'):
+            if hasattr(func, '__call__') and not inspect.isroutine(func) and not inspect.isclass(func):
                 func = func.__call__ # treat callable instance as __call__
         except AttributeError:
-            if hasattr(func, '__call__') and not hasattr(func, '__name__'):
+            if hasattr(func, '__call__') and not inspect.isroutine(func) and not inspect.isclass(func):
                 func = func.__call__ # treat callable instance as __call__
             else: #XXX: anything else to try? No? Give up.
                 pass
